@@ -313,6 +313,8 @@ def compare(it, op, a, b, node):
                 r = False
             else:
                 r = None
+        elif isinstance(a, VExt) and isinstance(b, VExt):
+            r = a.name == b.name
         elif isinstance(a, VObj) and isinstance(b, VObj):
             r = a.inst is b.inst
         elif isinstance(a, VUnknown) or isinstance(b, VUnknown):
@@ -426,6 +428,9 @@ def contains(it, container, item):
             vals = [const_of(x) for x in items]
             if all(o for o, _ in vals):
                 return k in [v for _, v in vals]
+        if isinstance(item, (VExt, VClass)) and all(isinstance(x, (VExt, VClass)) for x in items):
+            key = lambda x: x.name if isinstance(x, VExt) else x.cls.qualname  # noqa: E731
+            return key(item) in [key(x) for x in items]
         return None
     if isinstance(container, VConst) and isinstance(container.value, str) and ok and isinstance(k, str):
         return k in container.value
